@@ -1668,5 +1668,15 @@ def self_intersections(nodes):
     keep_columns = ~np.all(compare_split, axis=0)
     left_right_intersections = left_right_intersections[:, keep_columns]
 
-    result = np.hstack([left_self, left_right_intersections, right_self])
-    return np.asfortranarray(result)
+    # A self-intersection with a parameter at (or within rounding of) a split
+    # point of the recursion is found both inside a half and in
+    # ``left_right_intersections``; merge with the same duplicate check the
+    # curve-curve intersection uses.
+    result = []
+    for block in (left_self, left_right_intersections, right_self):
+        for s, t in block.T:
+            add_intersection(s, t, result)
+    if not result:
+        return np.empty((2, 0), order="F")
+
+    return np.asfortranarray(np.array(result, order="C").T)
